@@ -167,6 +167,7 @@ class Player(object):
                 "window": window, "hits": list(self.hits), "fault": bool(self.faulted or (exc & VIOL)), "crashed": crashed}
 
     repaired = False
+    pending_patch = False
 
     def clear_faults(self):
         """clear the reported fault but keep a pending self-modification notice (a host write into translated code raises
@@ -184,6 +185,7 @@ class Player(object):
         for c in script:
             k = c["c"]
             if k in ("run", "cont"):
+                self.pending_patch = False
                 self.faulted = False
                 self.membp = False
                 crashed = ""
@@ -201,6 +203,7 @@ class Player(object):
                 if crashed:
                     break
             elif k == "patch":
+                self.pending_patch = True
                 j.vm.set_mem(imm_addr(self.prog, self.offs, c["s"]), bytes([c["v"]]))
             elif k == "addbp":
                 slot, stops = c["s"], c["stops"]
@@ -236,6 +239,10 @@ class Player(object):
                         j.vm.set_mem(p["base"], bytes((p["base"] + i) % 251 for i in range(p["size"])))
                 if self.item["stackok"]:
                     j.vm.set_mem(STACK_BASE, STACK_FILL * STACK_SIZE)
+                # the host's own writes above are not accesses of the emulated program: armed watchpoints must not see them
+                # (kept when a host patch of the code is still waiting to be noticed by the next run)
+                if not self.pending_patch:
+                    j.vm.reset_memory_access()
                 self.clear_faults()
         return obs
 
